@@ -155,6 +155,8 @@ REWRITES = {
         "a byte string literal b\"..\" is the array of its ASCII bytes (Verus knows the length of such a literal but not its contents)"),
     "lit_into_string": (r'("[^"\\\\]*")\.into\(\)', r"vstr::string_of(\1)", "`\"lit\".into()` where a String is expected is the String with that text"),
     "map_json_string": (r"\.map\(JsonValue::String\)", r".map_json_string()", "`.map(JsonValue::String)` wraps every key in the String variant (an enum constructor used as a function value is outside Verus)"),
+    "factory_call": (r"\(self\.build_extractor\)\(args\)", r"self.build_extractor.call(args)",
+        "the field `build_extractor: fn(Vec<Rc<dyn Get>>) -> Rc<dyn Get>` is the opaque stand-in `Factory` (Verus rejects function pointer types); calling it is `call`"),
     "str_to_string": (r"\b(s|str|word|text)\.to_string\(\)", r"vstr::to_string_of(\1)", "&str::to_string() is a String with the same text"),
     "pub_crate": (r"\bpub\(crate\)\s+", r"pub ", "visibility is irrelevant in a single file"),
     "deref_clone": (
